@@ -910,15 +910,12 @@ theorem validate_transfer (W : World) : ∀ (d F : Nat) (s : Schema) (c x : Cfg)
         | leaf fs m =>
           obtain ⟨v, v', hc, hx, hsm⟩ := slotSame_leaf_inv hslot
           simp only [fieldProblem, hc, hx] at hp ⊢
-          by_cases hinc : m.isInclude = true
-          · simp [hinc]
-          · simp only [hinc, Bool.false_eq_true, if_false] at hp ⊢
-            rw [hc] at hl
-            cases hv : validate W.fe.toEnv fs v with
-            | error e => simp [hv] at hp
-            | ok r =>
-              obtain ⟨r', hr'⟩ := hl v' hsm ⟨r, hv⟩
-              simp [hr']
+          rw [hc] at hl
+          cases hv : validate W.fe.toEnv fs v with
+          | error e => simp [hv] at hp
+          | ok r =>
+            obtain ⟨r', hr'⟩ := hl v' hsm ⟨r, hv⟩
+            simp [hr']
         | sub s' =>
           obtain ⟨ca, cb, hc, hx, hsm⟩ := slotSame_sub_inv hslot
           simp only [fieldProblem, hc, hx] at hp ⊢
